@@ -41,18 +41,25 @@ def check(ctx):
     k = R.AM + "::leak_slot_internal"
     body = Body(fx.fn(k)); dg = D.Dag(body)
     nones = _none_returns(body)
+    # the recede: the helper try_unleak_slot_internal, or -- when it was merged into this function -- the CAS (id+1 -> id) on the reservation counter itself
+    have_helper = fx.fn_opt(R.AM + "::try_unleak_slot_internal") is not None
     unleaks = [(b, c) for (b, c) in body.calls if c.get("fname") in ("try_unleak_slot_internal",)]
-    true_t = None
+    direct = [(b, c) for (b, c) in body.calls if (R.atomic_target(body, c) or (0, 0, ""))[1:2] == ("enqueuer_tail",) and "compare_exchange" in (R.atomic_target(body, c) or (0, 0, ""))[2]]
+    succ_edges = set()
     for b in body.reachable:
         t = body.term(b)
         if t[0] == "Switch" and t[5] == "bool":
             e = strip_casts(dg.expr(t[1]))
             if e[0] == "call" and e[1].endswith("try_unleak_slot_internal"):
                 zero = [tg for (v, tg) in t[2] if v == 0]
-                if zero and zero[0] != t[3]: true_t = t[3]
-    ctx.ob("R16.1", f"{k}|reject-path-present", bool(nones) and len(unleaks) == 1, f"{body.f['file']}:{body.f['line']}", f"{len(nones)} `None` answers, {len(unleaks)} recede call", nontrivial=False)
+                if zero and zero[0] != t[3]: succ_edges.add(t[3])
+    for (cb_, c_) in direct:
+        if c_["dst"]["p"]: continue
+        for (tb, ok_t, err_t) in util.option_test_edges(body, dg, c_["dst"]["l"]):
+            if ok_t != err_t: succ_edges.add(ok_t)
+    ctx.ob("R16.1", f"{k}|reject-path-present", bool(nones) and len(unleaks) + len(direct) == 1, f"{body.f['file']}:{body.f['line']}", f"{len(nones)} `None` answers, {len(unleaks)} recede call(s), {len(direct)} direct recede CAS", nontrivial=False)
     for nb in nones:
-        ctx.ob("R16.1", f"{k}|none-only-after-successful-recede", true_t is not None and body.dominates(true_t, nb), body.loc(nb),
+        ctx.ob("R16.1", f"{k}|none-only-after-successful-recede", any(body.dominates(t_, nb) for t_ in succ_edges), body.loc(nb),
                "`None` (queue full) is answered only on the success edge of the recede CAS: the reservation counter is back to its value, no capacity is consumed")
     # typestate summaries of both reservation sides: answering None leaves nothing reserved (the consumer side is the reject path of every pool allocation whose
     # free list is this ring: a read reservation left behind hides a free slot for good)
@@ -66,12 +73,15 @@ def check(ctx):
                + ("`None` is answered only with the reservation counter back at its value" if not none_holding else
                   "a path answers `None` with the reservation still taken (the recede CAS lost and was not retried): the counter stays one ahead and one slot of capacity is gone for good"))
     kk = R.AM + "::try_unleak_slot_internal"
+    if not have_helper:
+        kk = R.AM + "::leak_slot_internal"      # merged: the CAS shape itself is R02.1's obligation (recede CAS id+1 -> id), its outcome is tested above
+        ctx.note("try_unleak_slot_internal is not a separate function on this tree: its obligations are discharged on the CAS inside leak_slot_internal")
     b2 = Body(fx.fn(kk)); d2 = D.Dag(b2)
     cas = [(b, c) for (b, c) in b2.calls if (R.atomic_target(b2, c) or (0, 0, ""))[1:2] == ("enqueuer_tail",) and "compare_exchange" in (R.atomic_target(b2, c) or (0, 0, ""))[2]]
     r0 = d2.local(0)
-    okc = len(cas) == 1 and not util.in_loop(b2, cas[0][0])
+    okc = len(cas) == 1 and (not util.in_loop(b2, cas[0][0]) or not have_helper)
     ctx.ob("R16.1", f"{kk}|single-cas-true-iff-success", okc, f"{b2.f['file']}:{b2.f['line']}", "the recede is one CAS on the reservation counter and its boolean answer is that CAS's outcome")
-    if okc:
+    if okc and have_helper:
         sw = None
         for b in b2.reachable:
             vs = util.variant_switch(b2, d2, b)
